@@ -578,6 +578,7 @@ doTbl(char **tok, int ntok) {
 #include "lvh_meta.h"
 #include "lvh_log.h"
 #include "lvh_hyph.h"
+#include "lvh_cache.h"
 
 int
 main(int argc, char **argv) {
@@ -704,6 +705,7 @@ main(int argc, char **argv) {
 		} else if (doMetaOp(tok, ntok)) {
 		} else if (doLogOp(tok, ntok)) {
 		} else if (doHyphOp(tok, ntok)) {
+		} else if (doCacheOp(tok, ntok)) {
 		} else {
 			printf("BADOP\n");
 		}
